@@ -280,6 +280,34 @@ def run_harness(ctx, binary, args, *, timeout=1800, env=None, stdin=None, allow_
     return hr
 
 
+def run_harness_chunked(ctx, binary, make_args, plans, *, chunk=1000, timeout=3000, env=None):
+    """Run the harness over an NDJSON plan file in slices of `chunk` lines, one process per slice (a process that
+    opens thousands of databases runs out of threads), and merge the results: violations are concatenated,
+    numeric counters summed, class names united, samples taken from the first slice."""
+    lines = [l for l in open(plans).read().splitlines() if l.strip()]
+    merged = HarnessResult()
+    names = set()
+    for i in range(0, max(len(lines), 1), chunk):
+        part = ctx.path("%s.part%d" % (os.path.basename(plans), i // chunk))
+        with open(part, "w") as f:
+            f.write("\n".join(lines[i:i + chunk]) + "\n")
+        hr = run_harness(ctx, binary, make_args(part), timeout=timeout, env=env)
+        merged.violations.extend(hr.violations)
+        merged.rc = hr.rc
+        for k, v in hr.stats.items():
+            if k == "class_names":
+                names.update(v)
+            elif k == "samples":
+                merged.stats.setdefault("samples", v)
+            elif isinstance(v, bool) or not isinstance(v, (int, float)):
+                merged.stats.setdefault(k, v)
+            else:
+                merged.stats[k] = merged.stats.get(k, 0) + v
+    merged.stats["distinct_classes"] = len(names) if names else merged.stats.get("distinct_classes", 0)
+    merged.stats["harness_processes"] = (len(lines) + chunk - 1) // chunk
+    return merged
+
+
 # --------------------------------------------------------------------------
 # known findings / violations / evidence
 
